@@ -296,7 +296,7 @@ def tasks(tier):
     for m in range(0, 40):
         for seq in (True, False):
             ts.append(Task(f'dispatch.matype{m}.{"seq" if seq else "single"}', t_dispatch(m, seq), extra=dict(x), overrides=dict(ov)))
-    bx = dict(indic.CFG_EXTRA, spec_mod=SPEC, bounded=f'series of {N} values, periods {PERIODS}', task_timeout_s=120)
+    bx = dict(indic.CFG_EXTRA, spec_mod=SPEC, bounded=f'series of {N} values, periods {PERIODS}', task_timeout_s=600)
     periods = PERIODS if tier == 'thorough' else (2, 3)
     for p in periods:
         for n in ('sma', 'wma', 'roc', 'mom', 'ema'):
